@@ -1,1 +1,104 @@
-(* Props/C19.v — theorems to come *)
+(* Props/C19.v — property theorems only.  Model: Gen/excellib.v, regenerated
+   from /repo/src/pycel/excellib.py on every run; numbers are exact rationals
+   ([qv v] is the value of a Python int/float/bool). *)
+From Coq Require Import ZArith QArith Qround Qabs List.
+From PV Require Import Lib.Py Proofs.NumLemmas Proofs.C19.
+From PV Require Gen.excelutil Gen.excellib.
+Import ListNotations.
+Open Scope Z_scope.
+
+(* ROUND(x, d) = z * 10^-d with z the integer nearest to x * 10^d, ties away
+   from zero — for every rational x and every integer d (positive, zero, negative) *)
+Theorem C19_round : forall x d, numeric x ->
+  excellib.f_round_ x (VInt d)
+  = Ok (mkfloat (inject_Z (q_round_half_up (qv x / digits_unit d)) * digits_unit d))
+  /\ nearest_away (qv x / digits_unit d) (q_round_half_up (qv x / digits_unit d)).
+Proof. exact (fun x d H => conj (round_closed x d H) (half_up_nearest _)). Qed.
+Print Assumptions C19_round.
+
+(* ROUNDDOWN / TRUNC move toward zero, ROUNDUP away from zero, to such a multiple *)
+Theorem C19_rounddown : forall x d, numeric x ->
+  excellib.f_rounddown x (VInt d)
+  = Ok (mkfloat (inject_Z (q_trunc (qv x / digits_unit d)) * digits_unit d))
+  /\ toward_zero (qv x / digits_unit d) (q_trunc (qv x / digits_unit d)).
+Proof. exact (fun x d H => conj (rounddown_closed x d H) (trunc_toward_zero _)). Qed.
+Print Assumptions C19_rounddown.
+Theorem C19_trunc : forall x d, numeric x ->
+  excellib.f_trunc x (VInt d) = excellib.f_rounddown x (VInt d).
+Proof. exact (fun x d H => eq_trans (trunc_closed x d H) (eq_sym (rounddown_closed x d H))). Qed.
+Print Assumptions C19_trunc.
+Theorem C19_roundup : forall x d, numeric x ->
+  excellib.f_roundup x (VInt d)
+  = Ok (mkfloat (inject_Z (q_round_up (qv x / digits_unit d)) * digits_unit d))
+  /\ away_from_zero (qv x / digits_unit d) (q_round_up (qv x / digits_unit d)).
+Proof. exact (fun x d H => conj (roundup_closed x d H) (round_up_away _)). Qed.
+Print Assumptions C19_roundup.
+(* all three fix exact multiples; the unit 10^-d is positive *)
+Theorem C19_fix_multiples : forall k,
+  q_round_half_up (inject_Z k) = k /\ q_trunc (inject_Z k) = k /\ q_round_up (inject_Z k) = k.
+Proof. exact round_modes_fix. Qed.
+Print Assumptions C19_fix_multiples.
+Theorem C19_unit_positive : forall n, (0 < pow10 n)%Q.
+Proof. exact pow10_pos. Qed.
+Print Assumptions C19_unit_positive.
+
+(* INT is floor *)
+Theorem C19_int : forall x, numeric x -> excellib.f_int_ x = Ok (VInt (Qfloor (qv x))).
+Proof. exact int_floor. Qed.
+Print Assumptions C19_int.
+
+(* MOD(n, d): n = d * INT(n/d) + MOD, sign of d, |MOD| < |d|; d = 0 -> #DIV/0! *)
+Theorem C19_mod : forall n d, numeric n -> numeric d -> ~ (qv d == 0)%Q ->
+  exists r, excellib.f_mod n d = Ok r /\ numeric r
+    /\ (qv n == qv d * inject_Z (Qfloor (qv n / qv d)) + qv r)%Q
+    /\ ((0 < qv d)%Q -> (0 <= qv r)%Q /\ (qv r < qv d)%Q)
+    /\ ((qv d < 0)%Q -> (qv d < qv r)%Q /\ (qv r <= 0)%Q).
+Proof. exact mod_spec. Qed.
+Print Assumptions C19_mod.
+Theorem C19_mod_zero : forall n d, numeric n -> numeric d -> (qv d == 0)%Q ->
+  excellib.f_mod n d = Ok excelutil.c_DIV0.
+Proof. exact mod_zero. Qed.
+Print Assumptions C19_mod_zero.
+
+(* CEILING / FLOOR with positive significance: the adjacent multiples of s bracketing x *)
+Theorem C19_ceiling_floor : forall x s, numeric x -> numeric s -> (0 < qv s)%Q ->
+  exists c f kc kf,
+    excellib.f_ceiling x s = Ok c /\ excellib.f_floor x s = Ok f
+    /\ (qv c == qv s * inject_Z kc)%Q /\ (qv f == qv s * inject_Z kf)%Q
+    /\ (qv f <= qv x)%Q /\ (qv x <= qv c)%Q
+    /\ (qv c < qv x + qv s)%Q /\ (qv x < qv f + qv s)%Q.
+Proof. exact ceiling_floor_bracket. Qed.
+Print Assumptions C19_ceiling_floor.
+Theorem C19_ceiling_num_error : forall x s, numeric x -> numeric s -> (qv s < 0)%Q -> (0 < qv x)%Q ->
+  excellib.f_ceiling x s = Ok excelutil.c_NUM_ERROR.
+Proof. exact ceiling_num_error. Qed.
+Print Assumptions C19_ceiling_num_error.
+Theorem C19_floor_num_error : forall x s, numeric x -> numeric s -> (qv s < 0)%Q -> (0 < qv x)%Q ->
+  excellib.f_floor x s = Ok excelutil.c_NUM_ERROR.
+Proof. exact floor_num_error. Qed.
+Print Assumptions C19_floor_num_error.
+Theorem C19_ceiling_precise : forall x s, numeric x -> numeric s -> ~ (qv s == 0)%Q ->
+  exists r, excellib.f_ceiling_precise x s = Ok r /\ numeric r
+    /\ (qv r == Qabs (qv s) * inject_Z (Qceiling (qv x / Qabs (qv s))))%Q.
+Proof. exact ceiling_precise_closed. Qed.
+Print Assumptions C19_ceiling_precise.
+Theorem C19_floor_precise : forall x s, numeric x -> numeric s -> ~ (qv s == 0)%Q ->
+  exists r, excellib.f_floor_precise x s = Ok r /\ numeric r
+    /\ (qv r == Qabs (qv s) * inject_Z (Qfloor (qv x / Qabs (qv s))))%Q.
+Proof. exact floor_precise_closed. Qed.
+Print Assumptions C19_floor_precise.
+
+(* EVEN / ODD: next even / odd integer away from zero *)
+Theorem C19_even : forall x, numeric x ->
+  exists r k, excellib.f_even x = Ok r
+    /\ (Qabs (qv r) == inject_Z (2 * k))%Q /\ (Qabs (qv x) <= Qabs (qv r))%Q
+    /\ (Qabs (qv r) < Qabs (qv x) + 2)%Q
+    /\ ((qv x < 0)%Q -> (qv r <= 0)%Q) /\ ((0 <= qv x)%Q -> (0 <= qv r)%Q).
+Proof. exact even_bracket. Qed.
+Print Assumptions C19_even.
+Theorem C19_odd_closed_form : forall x, numeric x ->
+  exists r, excellib.f_odd x = Ok r /\ numeric r
+    /\ (qv r == (if q_ltb (qv x) 0 then -1 else 1)
+                * Qabs (inject_Z (2 * Qceiling ((Qabs (qv x) - 1) / 2) + 1)))%Q.
+Proof. exact odd_closed. Qed.
+Print Assumptions C19_odd_closed_form.
